@@ -66,8 +66,8 @@ fn fingerprint(bank: &Bank, c: &SwapCall, ix: &Ix, out: &TxOutcome, spacing: u16
 /// swap_v2 with supplemental tick arrays appended as remaining accounts.
 pub fn with_supplemental(ix: &Ix, extra: &[Pubkey]) -> Ix {
     let mut i = ix.clone();
-    if extra.is_empty() {
-        return i;
+    if extra.is_empty() || i.data.last() != Some(&0) {
+        return i; // nothing to add, or the instruction already carries remaining-accounts information
     }
     // the last byte of the data is the `None` of Option<RemainingAccountsInfo>
     assert_eq!(i.data.pop(), Some(0));
@@ -217,7 +217,7 @@ impl Monitor for C10 {
         variants.push(("single_array_thrice", obs.pre.clone(), set_arrays(&obs.ix, dup2), false));
         // (c) supplemental arrays (v2): duplicates of the static ones plus neighbours, and the
         //     static slots filled with one array only
-        if c.v2 {
+        if c.v2 && obs.ix.data.last() == Some(&0) {
             let base = array_start(pre.tick_current_index, sp);
             let mut extra: Vec<Pubkey> = vec![canon_arrays[2], canon_arrays[1]];
             let far = base as i64 + if c.a_to_b { 3 } else { -3 } * tia as i64;
@@ -305,7 +305,7 @@ impl Monitor for C10 {
         }
         // (g') ... also when it hides among the supplemental arrays behind the three arrays of the path
         let mut foreign_sup: Option<Ix> = None;
-        if let (Some(o), true) = (other_pool_array, c.v2) {
+        if let (Some(o), true) = (other_pool_array, c.v2 && obs.ix.data.last() == Some(&0)) {
             foreign_sup = Some(with_supplemental(&obs.ix, &if w.r.gen() { vec![o] } else { vec![canon_arrays[1], o, canon_arrays[2]] }));
         }
         for (name, bank, ixv, must_equal) in variants {
